@@ -39,6 +39,7 @@ package validate
 //@ define sameSlice(a, b) = a == b
 
 //@ func PolicyToOptions(policy) (r, err)
+//@   records policytooptions
 //@   ensures[range] polQe(policy) > 65535 || polPce(policy) > 65535 ==> err != nil
 //@   ensures[length] err == nil ==> r != nil && optsLenOK(r)
 //@   ensures[map-header] err == nil ==> r.HeaderOptions.MinimumQeSvn == uint16(polQe(policy)) && r.HeaderOptions.MinimumPceSvn == uint16(polPce(policy))
